@@ -3,6 +3,7 @@ replay files into known_findings.json after they have been triaged by hand."""
 import glob, json, sys
 prop = sys.argv[1]
 what = {
+ "D34": "an interrupt that arrives after register/unregister has changed the definitions but before the rebuild has started (core.py _register / _update) leaves the previous table in service: calls dispatch over the old method set until another change succeeds",
  "D10": "recurse / call_next inside the iterable of a comprehension is rewritten with an assignment expression, which Python forbids there: registering the method raises SyntaxError (recode.py visit_Call)",
  "D11": "recurse(x, **kw): the double-starred argument is treated as a keyword named None (key element (None, dict), call passes **tmp) instead of expanding the keywords (recode.py visit_Call L433-443)",
  "D12": "a body that uses both recurse and the function's own name (or call_next and the name) has only the first symbol rewritten; the other hits the Unusable placeholder / UsageError (recode.py adapt_function L505-508)",
